@@ -14,14 +14,26 @@ type WalkProperty struct {
 type WalkCallback func(schema WalkProperty) error
 
 func WalkSchemaFields(root RootSchema, asClient bool, callback WalkCallback) error {
-	err := walkSchemaFields(root, asClient, callback, nil)
+	err := walkSchemaFields(root, asClient, callback, nil, map[string]struct{}{})
 	if err != nil {
 		return err
 	}
 	return nil
 }
 
-func walkSchemaFields(root RootSchema, asClient bool, callback WalkCallback, path []string) error {
+// walkSchemaFields visits the properties of root and, depth first, of every
+// object and oneof they refer to. A schema which is already being walked
+// further up the current path is not entered again, so recursive types end.
+func walkSchemaFields(root RootSchema, asClient bool, callback WalkCallback, path []string, walking map[string]struct{}) error {
+	if root == nil {
+		return nil
+	}
+	rootName := root.FullName()
+	if _, ok := walking[rootName]; ok {
+		return nil
+	}
+	walking[rootName] = struct{}{}
+	defer delete(walking, rootName)
 
 	var properties PropertySet
 	switch rt := root.(type) {
@@ -50,11 +62,11 @@ func walkSchemaFields(root RootSchema, asClient bool, callback WalkCallback, pat
 
 		switch st := prop.Schema.(type) {
 		case *ObjectField:
-			if err := walkSchemaFields(st.Ref.To, asClient, callback, propPath); err != nil {
+			if err := walkSchemaFields(st.Ref.To, asClient, callback, propPath, walking); err != nil {
 				return err // not wrapped, the path is already in the error above
 			}
 		case *OneofField:
-			if err := walkSchemaFields(st.Ref.To, asClient, callback, propPath); err != nil {
+			if err := walkSchemaFields(st.Ref.To, asClient, callback, propPath, walking); err != nil {
 				return err // not wrapped, the path is already in the error above
 			}
 		}
